@@ -2,6 +2,8 @@
    Property theorems only; proofs live in C20/*Proofs.v. *)
 Require Import PG.Base.Bytes PG.Base.GoSlice.
 Require Import PG.C20.RelmapModel PG.C20.RelmapSpec PG.C20.RelmapProofs.
+Require Import PG.C20.RelmapFs PG.C20.RelmapFsProofs.
+Require Import PG.C20.SeqModel PG.C20.SeqSpec PG.C20.SeqProofs PG.C20.ListingProofs PG.C20.SeqHistoric.
 
 (* Every well-formed pg_filenode.map image (0..62 mappings of arbitrary oids/filenodes, duplicates
    allowed, any content in the unused slots, any stored CRC, any padding >= 4 bytes, whatever follows
@@ -38,3 +40,134 @@ Print Assumptions C20_relmap_lookup.
 Theorem C20_relmap_no_panic : forall s, ParseRelMapFile s <> Panic.
 Proof. exact parse_relmap_no_panic. Qed.
 Print Assumptions C20_relmap_no_panic.
+
+(* The file-system plumbing: for a cluster whose global map is the image g and whose databases (in
+   pg_database order) each have a map image or no map file, ReadAllRelMaps reports the global map and
+   exactly the databases that have one, each with its exact content, flag and path, in that order. *)
+Theorem C20_relmap_all : forall fs g dbs imgs,
+  fs_holds_maps fs g dbs imgs ->
+  ReadAllRelMaps fs =
+  Ok (inr ({| rmf_map := expected_relmap g; rmf_global := true; rmf_path := PathGlobal |}, expected_db_maps dbs imgs)).
+Proof. exact read_all_relmaps_ok. Qed.
+Print Assumptions C20_relmap_all.
+
+Theorem C20_relmap_all_no_panic : forall fs, ReadAllRelMaps fs <> Panic.
+Proof. exact read_all_relmaps_no_panic. Qed.
+Print Assumptions C20_relmap_all_no_panic.
+
+(* GetEnhancedMappings keeps every stored mapping in stored order; the added column is the tool's own
+   table of well-known catalog oids (not PostgreSQL data, outside the property). *)
+Theorem C20_relmap_enhanced : forall ms,
+  map (fun e => (fst (fst e), snd (fst e))) (GetEnhancedMappings ms) = ms /\
+  Forall (fun e => snd e = GetCatalogName (fst (fst e))) (GetEnhancedMappings ms).
+Proof. exact enhanced_keeps. Qed.
+Print Assumptions C20_relmap_enhanced.
+
+(* ===================================================================== sequences *)
+(* Every PostgreSQL >= 10 sequence relation file: the reported last value and is-called flag are the
+   stored ones - for EVERY int64 last_value (including those whose low 32 bits are 20, 21 or 23), every
+   int64 log_cnt, both flags, every t_hoff in 23..255, every placement of the tuple and of the special
+   space the page format allows, whatever the undefined bytes, whatever follows the page or the slice. *)
+Theorem C20_sequence : forall q t,
+  wf_seq q ->
+  ParseSequenceFile {| vis := enc_seq q; tail := t |} =
+  Ok (inr {| sd_last := expected_last q; sd_start := 0; sd_inc := 0; sd_max := 0; sd_min := 0; sd_cache := 0;
+             sd_cycled := false; sd_called := expected_called q |}).
+Proof. exact parse_sequence_roundtrip. Qed.
+Print Assumptions C20_sequence.
+Example C20_sequence_nonvacuous : wf_seq (ex_seq (7 * 2 ^ 32 + 23) true).
+Proof. apply ex_seq_wf. unfold int64_ok. lia. Qed.
+
+(* A file is recognised as a sequence iff its special space carries the sequence magic - for ALL byte
+   strings (any length, any special pointer, any content) and whatever lies beyond len. *)
+Theorem C20_is_sequence : forall s,
+  (carries_seq_magic (vis s) -> IsSequenceFile s = Ok true) /\
+  (~ carries_seq_magic (vis s) -> IsSequenceFile s = Ok false).
+Proof. exact is_sequence_classify. Qed.
+Print Assumptions C20_is_sequence.
+
+(* ... every well-formed sequence file does carry it ... *)
+Theorem C20_is_sequence_files : forall q t, wf_seq q -> IsSequenceFile {| vis := enc_seq q; tail := t |} = Ok true.
+Proof. intros q t W. apply is_sequence_iff. cbn [vis]. apply enc_seq_carries. exact W. Qed.
+Print Assumptions C20_is_sequence_files.
+
+(* ... and ParseSequenceFile rejects a file as "not a sequence" (too small / bad special pointer / wrong
+   magic) exactly when IsSequenceFile says no. *)
+Theorem C20_sequence_recognise : forall s,
+  (IsSequenceFile s = Ok false -> rejected_as_non_sequence (ParseSequenceFile s)) /\
+  (IsSequenceFile s = Ok true -> ~ rejected_as_non_sequence (ParseSequenceFile s)).
+Proof. exact parse_sequence_recognise. Qed.
+Print Assumptions C20_sequence_recognise.
+
+(* The per-database listing: for every cluster (any number of databases and relations, distinct
+   filenodes per database, distinct database names), whatever order the Go map of pg_class entries is
+   visited in (es is an arbitrary permutation, see fs_holds_db), FindSequences reports every relation of
+   kind 'S' exactly once, with its own name, oid, filenode, last value and flag, in filenode order. *)
+Theorem C20_listing : forall fs c d,
+  wf_cluster c -> In d c -> fs_dbs fs = Some (map db_row c) -> fs_holds_db fs d ->
+  exists l, FindSequences fs (d_name d) = Ok (inr l) /\ map line_of_entry l = expected_listing d.
+Proof. exact find_sequences_listing. Qed.
+Print Assumptions C20_listing.
+Example C20_listing_nonvacuous :
+  wf_cluster [ex_db] /\ fs_holds_db ex_fs ex_db /\ fs_dbs ex_fs = Some (map db_row [ex_db]) /\
+  expected_listing ex_db = [ (["b"]%byte, 16391, 16390, 20, false); (["a"]%byte, 16400, 16400, 7, true) ].
+Proof. exact listing_example. Qed.
+
+(* the expected listing is a permutation of the sequence relations: each once, nothing else *)
+Theorem C20_listing_once : forall d,
+  Permutation.Permutation (expected_listing d) (map line_of (filter (fun r => is_seq_kind (r_kind r)) (d_rels d))).
+Proof. exact expected_listing_complete. Qed.
+Print Assumptions C20_listing_once.
+
+Theorem C20_listing_unknown_db : forall fs c n,
+  fs_dbs fs = Some (map db_row c) -> ~ In n (map d_name c) -> FindSequences fs n = Ok (inl EDbNotFound).
+Proof. exact find_sequences_unknown. Qed.
+Print Assumptions C20_listing_unknown_db.
+
+(* The cluster-wide listing: every database whose name does not start with "template" and that has at
+   least one sequence, with exactly its own listing. *)
+Theorem C20_scan_all : forall fs c,
+  wf_cluster c -> fs_dbs fs = Some (map db_row c) -> (forall d, In d c -> fs_holds_db fs d) ->
+  exists m, ScanAllSequences fs = Ok (Some m) /\ scan_obs m = expected_scan c.
+Proof. exact scan_all_listing. Qed.
+Print Assumptions C20_scan_all.
+
+(* C10 share: no byte string makes the sequence parsers panic, and ParseSequenceFile never looks beyond
+   len (so an os.ReadFile buffer with spare capacity gives the same result). *)
+Theorem C20_sequence_no_panic : forall s,
+  ParseSequenceFile s <> Panic /\ parseSequenceTuple s <> Panic /\ IsSequenceFile s <> Panic.
+Proof. intros s. repeat split; [apply parse_sequence_no_panic|apply parse_tuple_no_panic|apply is_sequence_no_panic]. Qed.
+Print Assumptions C20_sequence_no_panic.
+
+Theorem C20_sequence_tail : forall v t1 t2,
+  ParseSequenceFile {| vis := v; tail := t1 |} = ParseSequenceFile {| vis := v; tail := t2 |}.
+Proof. exact parse_sequence_tail. Qed.
+Print Assumptions C20_sequence_tail.
+
+(* ===================================================================== historic (repaired) defects *)
+(* Each holds of the code as it was BEFORE the corresponding fix: commit (SeqHistoric.v). *)
+Theorem C20_iscalled_refuted :
+  exists q, wf_seq q /\
+    ParseSequenceFile_old (exact (enc_seq q)) <> Ok (inr (pg10_data q)) /\
+    ParseSequenceFile_old (exact (enc_seq q)) = Ok (inr (pg10_data (ex_seq 5 false))).
+Proof. exact iscalled_refuted. Qed.
+Print Assumptions C20_iscalled_refuted.
+Theorem C20_typeoid_refuted :
+  exists q, wf_seq q /\ ParseSequenceFile_old (exact (enc_seq q)) = Ok (inl ESeqModernShort).
+Proof. exact typeoid_refuted. Qed.
+Print Assumptions C20_typeoid_refuted.
+Theorem C20_magic16_refuted :
+  ~ carries_seq_magic page_magic_11717 /\ IsSequenceFile_old (exact page_magic_11717) = Ok true /\
+  IsSequenceFile (exact page_magic_11717) = Ok false.
+Proof. exact magic16_refuted. Qed.
+Print Assumptions C20_magic16_refuted.
+Theorem C20_hoff_panic_refuted :
+  ParseSequenceFile_old (exact page_hoff_panic) = Panic /\
+  ParseSequenceFile (exact page_hoff_panic) = Ok (inl ESeqTupleSmall).
+Proof. exact hoff_panic_refuted. Qed.
+Print Assumptions C20_hoff_panic_refuted.
+Theorem C20_listing_order_refuted :
+  FindSequences_old (fs_order two_entries) ["d"]%byte <> FindSequences_old (fs_order (rev two_entries)) ["d"]%byte /\
+  FindSequences (fs_order two_entries) ["d"]%byte = FindSequences (fs_order (rev two_entries)) ["d"]%byte.
+Proof. exact listing_order_refuted. Qed.
+Print Assumptions C20_listing_order_refuted.
